@@ -4,6 +4,7 @@
 package c11
 
 import (
+	"github.com/bbockelm/cedar/message"
 	"path/filepath"
 	"os"
 	"context"
@@ -890,6 +891,9 @@ func TestC11Replay(t *testing.T) {
 		var d Dev
 		_ = json.Unmarshal(raw["case"], &d)
 		v, _ = runDev(d)
+	case "recorded":
+		TestC11RecordedIdentity(t) // deterministic and short: the whole sweep
+		return
 	case "verify":
 		var tok string
 		_ = json.Unmarshal(raw["token"], &tok)
@@ -898,4 +902,119 @@ func TestC11Replay(t *testing.T) {
 	if v != "" {
 		t.Fatalf("C11 violated: %s", v)
 	}
+}
+
+// ---------------------------------------------------------------------------
+// (5) what the server RECORDS: the token sub-protocol alone, through the exported entry point
+// ---------------------------------------------------------------------------
+
+// akep2Client plays the three AKEP2 messages on s. With sig == nil it does not know the signature and sends a
+// random proof. It returns after step 3.
+func akep2Client(ctx context.Context, s *stream.Stream, claimID, tokenText string, sig []byte) {
+	ra := kit.Pattern(256, 99)
+	tm := message.NewMessageForStream(s)
+	_ = tm.PutInt(ctx, 0)
+	_ = tm.PutInt(ctx, len(claimID))
+	_ = tm.PutString(ctx, claimID)
+	_ = tm.PutString(ctx, tokenText)
+	_ = tm.PutInt(ctx, len(ra))
+	_ = tm.PutBytes(ctx, ra)
+	if tm.FinishMessage(ctx) != nil {
+		return
+	}
+	sm := message.NewMessageFromStream(s)
+	st2, err := sm.GetInt(ctx)
+	if err != nil {
+		return
+	}
+	_, _ = sm.GetInt(ctx)
+	a2, _ := sm.GetString(ctx)
+	_, _ = sm.GetInt(ctx)
+	b2, _ := sm.GetString(ctx)
+	n, _ := sm.GetInt(ctx)
+	_, _ = sm.GetBytes(ctx, n)
+	n, _ = sm.GetInt(ctx)
+	rb, _ := sm.GetBytes(ctx, n)
+	n, _ = sm.GetInt(ctx)
+	_, _ = sm.GetBytes(ctx, n)
+	_ = b2
+	proof := kit.Pattern(20, 31337)
+	if sig != nil {
+		proof = kit.RefAKEP2Keys(sig, tokenText).ClientProof(a2, rb)
+	}
+	if st2 != 0 {
+		a2, rb, proof = "", nil, nil
+	}
+	cm := message.NewMessageForStream(s)
+	_ = cm.PutInt(ctx, 0)
+	_ = cm.PutInt(ctx, len(a2))
+	_ = cm.PutString(ctx, a2)
+	_ = cm.PutInt(ctx, len(rb))
+	_ = cm.PutBytes(ctx, rb)
+	_ = cm.PutInt(ctx, len(proof))
+	_ = cm.PutBytes(ctx, proof)
+	_ = cm.FinishMessage(ctx)
+}
+
+// TestC11RecordedIdentity: whenever the token exchange fails on the server nothing of the token may have been
+// recorded as the connection's identity (a later method would inherit it); when it succeeds the identity is
+// the token's subject, whatever id the client claimed.
+func TestC11RecordedIdentity(t *testing.T) {
+	bad := 0
+	for _, k := range keyKinds {
+		for _, sub := range subKinds {
+			for _, knows := range []bool{true, false} {
+				for _, claim := range []string{"sub", "other"} {
+					spec := TokSpec{k, sub, "future", "recent"}
+					bt := build(spec)
+					claimID := bt.sub
+					if claim == "other" || claimID == "" {
+						claimID = "root@verif.test"
+					}
+					pa, pb := kit.NextPorts()
+					cc, sc := kit.NewBufPipe(pa, pb)
+					ctx, cancel := context.WithTimeout(context.Background(), 3*time.Second)
+					var sig []byte
+					if knows {
+						sig = bt.sig
+					}
+					go func() { akep2Client(ctx, stream.NewStream(cc), claimID, bt.text, sig); _ = cc.Close() }()
+					scfg := serverCfg()
+					neg := &security.SecurityNegotiation{IsClient: false, ServerConfig: scfg}
+					done := make(chan error, 1)
+					go func() { done <- security.NewAuthenticator(scfg, stream.NewStream(sc)).PerformTokenAuthenticationDemo(security.AuthToken, neg) }()
+					var err error
+					select {
+					case err = <-done:
+					case <-ctx.Done():
+						_ = sc.Close()
+						err = <-done
+					}
+					cancel()
+					_ = sc.Close()
+					v := ""
+					mustFail := bt.mustFail || !knows
+					switch {
+					case err != nil && neg.User != "":
+						v = fmt.Sprintf("the token exchange failed (%v) but the server recorded the identity %q", err, neg.User)
+					case err == nil && mustFail && !bt.either:
+						v = fmt.Sprintf("the token exchange succeeded for a client that must be refused (knows signature: %v, token %+v)", knows, spec)
+					case err == nil && bt.sub != "" && neg.User != strings.Split(bt.sub, "@")[0]:
+						v = fmt.Sprintf("recorded identity %q is not the token's subject %q (claimed id %q)", neg.User, bt.sub, claimID)
+					}
+					if v == "" && err != nil && !mustFail && !bt.either {
+						v = fmt.Sprintf("the token exchange failed for a client holding a valid token and its signature: %v", err)
+					}
+					js, _ := json.Marshal(map[string]any{"tok": spec, "knows": knows, "claim": claim})
+					ev.Case("recorded-identity", "rec"+string(js))
+					if v != "" && bad < 4 {
+						bad++
+						kit.Violation("C11", v, map[string]any{"part": "recorded", "tok": spec, "knows": knows, "claim": claim})
+						t.Errorf("C11 violated: %s", v)
+					}
+				}
+			}
+		}
+	}
+	ev.Exhaustive("the token sub-protocol alone on the server: 9 key kinds x 4 subject kinds x {knows the signature, does not} x {claims the subject, claims root}")
 }
